@@ -286,6 +286,25 @@ pub fn run(ctx: &mut Ctx) {
         }
         emit_text(ctx, &langs, "nest-swapped", &format!("{}x{}", open, sw.join("")));
     }
+    // ---- every value position x every literal / identifier form of the alphabet ----
+    let slots = [
+        "{{ X }}", "{{- X -}}", "{% if X %}t{% endif %}", "{% if 1 == X %}t{% endif %}", "{% if X contains X %}t{% endif %}", "{% unless X %}t{% endunless %}",
+        "{% assign v = X %}", "{{ 1 | plus: X }}", "{{ X | default: X }}", "{% for i in (1..X) %}t{% endfor %}", "{% for i in (X..2) %}t{% endfor %}",
+        "{% for i in a limit: X %}t{% endfor %}", "{% for i in a offset: X %}t{% endfor %}", "{{ a[X] }}", "{{ a.X }}", "{% case X %}{% when X %}t{% endcase %}",
+        "{% case 1 %}{% when X, X %}t{% when 2 or X %}u{% endcase %}", "{% cycle X, X %}", "{% cycle X: 1, 2 %}", "{% include X %}", "{% include 'p' X: X %}",
+        "{% render X %}", "{% render 'p' with X as y %}", "{% render 'p' for X as y %}", "{% render 'p', k: X %}", "{% tablerow i in a cols: X %}t{% endtablerow %}",
+        "{% capture X %}t{% endcapture %}", "{% increment X %}", "{% ifchanged %}{{ X }}{% endifchanged %}", "{% raw %}{{ X }}{% endraw %}{{ X }}",
+    ];
+    let values = [
+        "1", "-1", "+1", "1.5", "-0.0", "1.", ".5", "12345678901234567890", "-9223372036854775808", "9223372036854775807", "9223372036854775808", "1e5",
+        "'s'", "\"d\"", "'", "\"", "''", "'é'", "'\u{65e5}\u{672c}'", "true", "false", "nil", "null", "empty", "blank", "True", "FALSE", "tRuE", "Nil", "NULL", "Empty",
+        "BLANK", "x", "X_1", "a.b", "a[0]", "a['k']", "é", "\u{65e5}\u{672c}", "\u{1f600}", "(1..2)", "-", "", "forloop", "forloop.index", "and", "or", "contains", "in",
+    ];
+    for slot in slots {
+        for v in values {
+            emit_text(ctx, &langs, "slot", &slot.replace("X", v));
+        }
+    }
     // ---- character-level mutations of well-formed templates ----
     let mut g = Gen::new(ctx.seed ^ 0x1C01);
     let n = if ctx.tier_thorough { 150_000 } else { 5_000 };
